@@ -34,8 +34,9 @@ PARTIAL = ['C02_parse_unparse_partial / C02_items_simulation_partial / C02_white
            'declared), (e4) arguments per slot of the declared signature: braced group with whitespace in front where the '
            'slot allows it, delimited argument [..] (any single-character delimiter pair) written or - when optional - absent, '
            'marker character * written or absent; side conditions: an absent argument is not followed (after whitespace) by '
-           'its opening character, the two delimiter characters are not text directly in the body of a delimited argument, '
-           'at most 8*(length of the call token)-4 absent arguments per call (the fuel of the model), (e5) a mandatory argument '
+           'its opening character, the two delimiter characters are not text directly in the body of a delimited argument '
+           '(no bound on the number of absent arguments per call: the model\'s fuel len*(8+max_args cx)+40+max_args cx is computed '
+           'from the context and pays for every declared slot), (e5) a mandatory argument '
            'written as one token: a character, a control sequence (its own arguments are not parsed), a specials sequence, '
            '(e6) a comment that ends with the input, a paragraph break followed by indentation, (e7) verbatim: \\verb<c>text<c> and '
            'the verbatim environments (verbatim; lstlisting with its optional argument written or absent), the verbatim argument '
